@@ -139,6 +139,11 @@ def cc1(tier):
                 for pl in placements:
                     for spec in _cc_specs(ctype, nc, no, pl, tier):
                         yield spec
+    if tier == 'quick':
+        # 4 options (thorough has them everywhere): corrections that have to move an option index by more than one
+        for ctype in ('PERMUTATION', 'UNORDERED_NOREPL'):
+            for spec in _cc_specs(ctype, 3, 4, 'permanent', tier):
+                yield spec
 
 
 def _cc_specs(ctype, nc, no, placement, tier):
